@@ -59,19 +59,19 @@ SEMANTIC_RULES = {
     "C02": {"R2", "R3", "R5", "R7"},
     "C03": {"R1", "R4", "R5", "R6", "R7"},
     "C04": {"R1", "R2", "R3", "R4"},
-    "C05": {"R1", "R2", "R3", "R6"},
+    "C05": {"R1", "R2", "R3", "R6", "R8"},
     "C06": {"R2", "R3", "R4", "R5", "R8"},
     "C07": {"R2", "R4"},
-    "C08": {"G1", "G2", "G5"},
+    "C08": {"G1", "G2", "G5", "G8"},
     "C09": {"R4", "R5"},
     "C10": {"ENTRY", "PRIM", "CLONE", "BACKEND", "FTYPE", "OWN", "IMM"},
-    "C11": {"R1", "R5", "R6"},
+    "C11": {"R1", "R5", "R6", "R7"},
     "C13": {"UNIQ", "LCA", "SIZED", "CONST", "XMODEL", "CONSTREJ", "DET"},
-    "C14": {"R5"},
+    "C14": {"R2", "R5"},
     "C16": {"CLONE", "R6", "R7", "R8"},
     "C17": {"R1", "R2", "R5", "R6"},
     "C18": {"R1", "R2", "R3", "R4", "R5"},
-    "C19": {"R1", "R2", "R3", "R3b", "R4", "R8", "R9", "R10", "A12"},
+    "C19": {"R1", "R2", "R3", "R3b", "R4", "R8", "R9", "R10", "R11", "A12"},
 }
 
 
@@ -266,11 +266,14 @@ class Check:
             "functions_analysed": len(self.functions_analysed),
             "functions_sample": sorted(self.functions_analysed)[:40],
             "samples": self.samples[:60],
-            "exhaustive": True,
+            "exhaustive": not self.undecided,
             "checker_cmd": f"./check {self.prop} --tier {self.tier}",
             "trusted_base": self.trusted or ["CPython ast module", "the rule tables inside /verif/pdtsa/rules"],
             "source_digest": self.repo.digest(),
             "known_findings_matched": n_known,
+            "undecided": len(self.undecided),
+            "undecided_obligations": self.undecided[:20],
+            "tree_equals_reference_snapshot": self.repo.same_as_reference(),
             "notes": self.notes,
             **self.extra_cov,
         }
